@@ -23,6 +23,8 @@ def op_unfold(c):
     kw = {}
     if c.get('extrapolate'):
         kw['do_extrapolate'] = True
+    if c.get('uniquify'):
+        kw['do_uniquify'] = True
     r, err = guard(lambda: unfold_search(s, **kw))
     o = dict(err=err, res=[], strings=[])
     if not err:
